@@ -785,6 +785,11 @@ class Engine:
             for path, process in process_updates:
                 assoc_path(self.processes, path, process)
                 self._add_process_path(process, path, {})
+                # A process that replaces another one under the same
+                # path starts afresh as well.
+                advance = self.front.pop(path, None)
+                if advance and advance['update']:
+                    advance['update'][0].discard()
 
         if step_updates:
             for path, step in step_updates:
@@ -815,6 +820,12 @@ class Engine:
         for path in list(self.process_paths.keys()):
             if starts_with(path, deletion):
                 del self.process_paths[path]
+                # Forget how far the process got and what it was still
+                # computing: a process created under the same path
+                # later, even in this batch, starts afresh.
+                advance = self.front.pop(path, None)
+                if advance and advance['update']:
+                    advance['update'][0].discard()
 
         for path in list(self._step_paths):
             if starts_with(path, deletion):
